@@ -34,7 +34,7 @@ Proof.
     | None => None
     | Some (objs', so) =>
         Some (mkOpened (ensure_patch_refs
-                 (mkWorld objs' (w_branch w) (Some so) (w_prefs w) (w_wt w) (w_unmerged w) (w_base w))
+                 (mkWorld objs' (w_branch w) (Some so) (w_prefs w) (w_wt w) (w_unmerged w) (w_base w) (w_apc w))
                  (empty_state (w_branch w))) (empty_state (w_branch w)) (w_branch w) true)
     end = Some op -> op_mir op).
   { intros E. destruct (state_commit _ _ _) as [[objs' so]|] eqn:Ec; [|discriminate].
@@ -113,7 +113,7 @@ Proof.
       destruct (state_commit _ _ _) as [[objs' so]|] eqn:Ec; [|exact Hm1].
       apply state_commit_state in Ec as [_ Ec].
       assert (Hfin : forall b x,
-        mirror (mkWorld objs' b (Some so) (exec_prefs (w_prefs w1) (t_updated t)) wt' um' x)).
+        mirror (mkWorld objs' b (Some so) (exec_prefs (w_prefs w1) (t_updated t)) wt' um' x (w_apc w1))).
       { intros b x. unfold mirror, cur_state. cbn. rewrite Ec. cbn. now apply prefs_fold_get. }
       destruct halted; apply Hfin.
     + cbn [fst]. eapply mirror_dep; [| | |exact Hm1]; reflexivity.
@@ -225,7 +225,7 @@ Lemma run_rename_mirror : forall w o n, mirror w -> mirror (fst (run_rename w o 
 Proof. intros. unfold run_rename. mir. Qed.
 Lemma run_commit_mirror : forall w r n al ae, mirror w -> mirror (fst (run_commit w r n al ae)).
 Proof. intros. unfold run_commit. mir. Qed.
-Lemma run_uncommit_mirror : forall w n names, mirror w -> mirror (fst (run_uncommit w n names)).
+Lemma run_uncommit_mirror : forall lower_s w n names, mirror w -> mirror (fst (run_uncommit lower_s w n names)).
 Proof. intros. unfold run_uncommit. mir. Qed.
 Lemma run_clean_mirror : forall w a u, mirror w -> mirror (fst (run_clean w a u)).
 Proof. intros. unfold run_clean. mir. Qed.
@@ -325,7 +325,7 @@ Qed.
 
 Lemma mirror_put_plain : forall w ps t m sj b wt um,
   mirror w ->
-  mirror (mkWorld (w_objs w ++ [plain ps t m sj]) b (w_stack w) (w_prefs w) wt um (w_base w)).
+  mirror (mkWorld (w_objs w ++ [plain ps t m sj]) b (w_stack w) (w_prefs w) wt um (w_base w) (w_apc w)).
 Proof.
   intros w ps t m sj b wt um H. unfold mirror, cur_state in *. cbn.
   destruct (w_stack w) as [so|]; [|exact I]. now rewrite state_of_put_plain.
@@ -372,7 +372,7 @@ Proof.
 Qed.
 
 Lemma mirror_reset_hard : forall w o wt um, mirror w ->
-  mirror (mkWorld (w_objs w) o (w_stack w) (w_prefs w) wt um (w_base w)).
+  mirror (mkWorld (w_objs w) o (w_stack w) (w_prefs w) wt um (w_base w) (w_apc w)).
 Proof. intros w o wt um H. eapply mirror_dep; [| | |exact H]; reflexivity. Qed.
 
 Lemma run_rebase_mirror : forall w t, mirror w -> mirror (fst (run_rebase w t)).
@@ -412,6 +412,17 @@ Proof.
   apply transact_mirror; [exact Eo|]. apply frame_squash_closure.
 Qed.
 
+Lemma run_pick_mirror : forall lower_s w src nm na, mirror w -> mirror (fst (run_pick lower_s w src nm na)).
+Proof.
+  intros lower_s w src nm na H.
+  destruct (run_pick_case lower_s w src nm na) as
+    [_|_|op Eo|op given o Eo _ _ _ _|op given o pn0 Eo _ _ _ _ _|op given o pn0 pn c par Eo _ _ _ _ _ _ _ _];
+    cbn [fst]; try exact H; try (apply open_op_mir in Eo; exact (op_mir_mirror op Eo)).
+  apply open_op_mir in Eo.
+  apply transact_mirror; [apply op_mir_with_objs; [exact Eo|apply store_extends_put]|].
+  apply frame_pick_body.
+Qed.
+
 Theorem step_mirror : forall lower_s w c, mirror w -> mirror (fst (step lower_s w c)).
 Proof.
   intros lower_s w c H. destruct c; cbn [step].
@@ -439,7 +450,9 @@ Proof.
   - now apply run_edit_mirror.
   - now apply run_rebase_mirror.
   - now apply run_squash_mirror.
+  - now apply run_pick_mirror.
   - destruct (open_stack PAllow w) as [op|] eqn:Eo; [|exact H]. now apply open_mirror in Eo.
+  - now apply run_git_mirror.
   - now apply run_git_mirror.
   - now apply run_git_mirror.
   - now apply run_git_mirror.
